@@ -5,9 +5,14 @@ use crate::events::ChaosEvent;
 use futures::future::BoxFuture;
 use rand::rngs::StdRng;
 use rand::Rng;
+#[cfg(feature = "verif-hooks")]
+use std::sync::Arc;
+#[cfg(not(feature = "verif-hooks"))]
 use std::sync::{Arc, Mutex};
 use std::task::{Context, Poll};
 use std::time::{Duration, Instant};
+#[cfg(feature = "verif-hooks")]
+use tower_resilience_core::verif::sync::Mutex;
 use tower_service::Service;
 
 /// A Tower service that injects chaos (errors and latency) into requests.
